@@ -545,6 +545,161 @@ theorem union_finish {g1 : Nat} {ms : Members} {sz : Nat} {fl0 : Bool} {top : Bo
     subst hc1
     exact ⟨rfl, rfl, rfl⟩
 
+theorem next_union_member {ms : Members} {sz : Nat} {fl0 : Bool} (top : Bool) (k : Nat) :
+    next (.union ms sz fl0) top ([] ++ [k]).reverse = none := by
+  have h := next_snoc (.union ms sz fl0) top [] k
+  simp only [List.reverse_nil] at h
+  simp only [List.nil_append, List.reverse_cons, List.reverse_nil]
+  rw [h, cursorIn_union rfl]
+  exact next_nil _ _
+
+theorem sim_unionrest {f : Nat} (ih : Sim f) : UnionRestSt (f+1) := by
+  intro ms sz fl0 c toks c' rest ho hs h
+  obtain ⟨e, m, cs, rfl, hms⟩ := union_of_shaped hs
+  rw [unionRest] at h
+  cases hce : consumeEnd toks with
+  | some rest0 =>
+    simp only [hce] at h
+    cases h
+    refine ⟨hs, fun k cs0 hc => ⟨⟨k, cs0, hc⟩, fun top g fl res hres _ => ?_⟩⟩
+    cases g with
+    | zero => cases hres
+    | succ g => rw [initList_end _ _ _ _ _ _ _ _ _ hce] at hres; cases hres; exact ⟨rfl, rfl, rfl⟩
+  | none =>
+    simp only [hce] at h
+    obtain ⟨toks1, hcomma, h⟩ := bind_eq_ok h
+    have hfirst : (if false = true then pure toks else skipTok ITok.comma "," toks) = .ok toks1 := by simpa using hcomma
+    split at h
+    · -- a designated initializer
+      rename_i name r
+      obtain ⟨⟨k', anon⟩, hsd, h⟩ := bind_eq_ok h
+      obtain ⟨mty, hmty, h⟩ := bind_eq_ok h
+      simp only at hmty h
+      obtain ⟨mi, hm⟩ := memTy_ok hmty
+      have hom : subOk mty = true := by
+        simp only [subOk, Bool.and_eq_true] at ho
+        exact subOkMs_get ms k' mi mty ho.1.2 hm
+      -- the node after `if (mem != init->mem) reset; init->mem = mem`
+      obtain ⟨cs1, hinit1, hms1, hsame⟩ : ∃ cs1, ((if (Init.union e m cs).mem? = some k' then Init.union e m cs
+          else (Init.union e m cs).setChild k' (newInit mty false)).setMem k') = .union e (some k') cs1 ∧ shapedMs ms cs1 = true ∧
+          (m = some k' → cs1 = cs) := by
+        by_cases hmk : m = some k'
+        · refine ⟨cs, ?_, hms, fun _ => rfl⟩
+          simp [Init.mem?, hmk, Init.setMem]
+        · refine ⟨cs.set k' (newInit mty false), ?_, shapedMs_set ms cs k' mi mty _ hms hm (shaped_newInit mty hom), fun h' => absurd h' hmk⟩
+          simp [Init.mem?, hmk, Init.setMem, Init.setChild, Init.withChildren, Init.children]
+      rw [hinit1] at h
+      obtain ⟨ck, hck, h⟩ := bind_eq_ok h
+      obtain ⟨⟨ck', tok2⟩, hd, hur⟩ := bind_eq_ok h
+      simp only at hck hd hur
+      have hk : cs1[k']? = some ck := by simpa [Init.children] using getChild_ok hck
+      have hsk : shaped mty ck = true := shapedMs_get ms cs1 k' mi mty ck hms1 hm hk
+      obtain ⟨hsk', _⟩ := ih.desg (top := false) (At.root hom hsk) hd
+      have hnode : (Init.union e (some k') cs1).setChild k' ck' = .union e (some k') (cs1.set k' ck') := rfl
+      rw [hnode] at hur
+      have hs1 : shaped (.union ms sz fl0) (.union e (some k') (cs1.set k' ck')) = true := by
+        simp only [shaped, Bool.and_eq_true]
+        exact ⟨shapedMs_set ms cs1 k' mi mty ck' hms1 hm hsk', by simp⟩
+      obtain ⟨hshape, hrestspec⟩ := ih.unionrest ho hs1 hur
+      refine ⟨hshape, fun k cs0 hc => ?_⟩
+      cases hc
+      obtain ⟨hform, hsp⟩ := hrestspec k' (cs1.set k' ck') rfl
+      refine ⟨hform, fun top g fl res hres hcl => ?_⟩
+      cases g with
+      | zero => cases hres
+      | succ g =>
+      replace hres := initList_item_imp _ _ _ _ _ _ _ _ hce hres hcl
+      rw [hfirst, ok_bind] at hres
+      simp only [pathsOf, isDesg, ↓reduceIte, List.length_cons] at hres
+      obtain ⟨j, mi', t', hkj, hmj, hcase⟩ := structDesignator_spec name ms 0 k' anon hsd
+      have hkj' : k' = j := by omega
+      subst hkj'
+      rw [hm] at hmj
+      cases hmj
+      by_cases hkk : k = k'
+      · -- the member initialised so far
+        subst hkk
+        have hcs1 : cs1 = cs := hsame rfl
+        subst hcs1
+        have hAk := (At.root (top := top) ho hs).child (childTy_union hm) (show (Init.union none (some k) cs1).children[k]? = some ck by
+          simpa [Init.children] using hk)
+        obtain ⟨_, himp1⟩ := ih.desg (top := top) hAk hd
+        have fin : ∀ g1, After (.union ms sz fl0) top (.union none (some k) cs1) ([] ++ [k]) ck' tok2 fl g1 = .ok res →
+            res.obj = c' ∧ res.rest = rest ∧ res.fl = fl := by
+          intro g1 hh
+          simp only [After] at hh
+          rw [next_union_member top k] at hh
+          have e1 : setAtM (.union none (some k) cs1) ([] ++ [k]) ck' = .union none (some k) (cs1.set k ck') := by
+            simp [setAtM]
+          rw [e1] at hh
+          exact hsp top g1 fl res hh hcl
+        rcases hcase with ⟨ha, hfm⟩ | ⟨ha, hagg, mp, hfm1, hfm⟩
+        · subst ha
+          rw [desigPaths_dot (p := []) (t := .union ms sz fl0) _ r rfl (by rw [findMember]; exact hfm) rfl] at hres
+          obtain ⟨g1, h1⟩ := himp1 g (r.length + 1) fl
+          simp only [Bool.false_eq_true, ↓reduceIte] at h1
+          exact fin g1 (h1 res hres hcl)
+        · subst ha
+          rw [desigPaths_dot (p := []) (t := .union ms sz fl0) _ r rfl (by rw [findMember]; exact hfm) rfl] at hres
+          obtain ⟨g1, h1⟩ := himp1 g ((r.length + 1) + 1) fl
+          simp only [↓reduceIte] at h1
+          rw [desigPaths_dot (p := [] ++ [k]) _ r hAk.sub hfm1 hagg] at h1
+          simp only [List.nil_append, List.cons_append] at h1 hres
+          exact fin g1 (h1 res hres hcl)
+      · -- another member: the specification's run notes the switch (`over`)
+        exfalso
+        have hdirty : ∀ (mp : List Nat) (d : Nat), (desigPaths (.union ms sz fl0) top d [[] ++ (k' :: mp)] r >>= fun pt =>
+            initItem g (.union ms sz fl0) top (.union none (some k) cs) pt.1 pt.2 fl) = .ok res → False := by
+          intro mp d hh
+          obtain ⟨⟨ps, t⟩, hdp, hitem⟩ := bind_eq_ok hh
+          obtain ⟨hl, hpre⟩ := desigPaths_inv _ _ _ _ _ _ _ hdp
+          have hne : ps ≠ [] := by intro h0; rw [h0] at hl; simp at hl
+          have := initItem_switch_dirty (k := k') hne hkk (fun q hq => by
+            obtain ⟨p, hp, s', rfl⟩ := hpre q hq
+            simp only [List.mem_singleton] at hp
+            subst hp
+            exact ⟨mp ++ s', by simp⟩) hitem
+          rw [hcl] at this; cases this
+        rcases hcase with ⟨_, hfm⟩ | ⟨_, _, mp, _, hfm⟩
+        · rw [desigPaths_dot (p := []) (t := .union ms sz fl0) _ r rfl (by rw [findMember]; exact hfm) rfl] at hres
+          exact hdirty [] _ hres
+        · rw [desigPaths_dot (p := []) (t := .union ms sz fl0) _ r rfl (by rw [findMember]; exact hfm) rfl] at hres
+          exact hdirty mp _ hres
+    · -- an excess element
+      rename_i hnd
+      obtain ⟨toks2, hskip, hur⟩ := bind_eq_ok h
+      obtain ⟨hshape, hrestspec⟩ := ih.unionrest ho hs hur
+      refine ⟨hshape, fun k cs0 hc => ?_⟩
+      obtain ⟨hform, hsp⟩ := hrestspec k cs0 hc
+      refine ⟨hform, fun top g fl res hres hcl => ?_⟩
+      cases g with
+      | zero => cases hres
+      | succ g =>
+      replace hres := initList_item_imp _ _ _ _ _ _ _ _ hce hres hcl
+      rw [hfirst, ok_bind] at hres
+      by_cases hdg : isDesg toks1 = true
+      · exfalso
+        have hbr : isBracket toks1 = true := isDesg_not_dot hdg (fun n r hh => hnd n r hh)
+        obtain ⟨e', he'⟩ := desigPaths_bracket_union ms sz fl0 top (toks1.length + 1) toks1 hbr
+        simp only [pathsOf, hdg, ↓reduceIte, he'] at hres
+        cases hres
+      · simp only [pathsOf, hdg, Bool.false_eq_true, ↓reduceIte, pure_bind'] at hres
+        rw [initItem_excess] at hres
+        obtain ⟨r', hr', hres⟩ := bind_eq_ok hres
+        have := skipExcess_fuel hskip hr'
+        subst this
+        exact hsp top g fl res hres hcl
+
+theorem unionRest_end {f : Nat} {ms : Members} {toks rest0 : List ITok} {init c' : Init} {rest : List ITok}
+    (hce : consumeEnd toks = some rest0) (h : unionRest f ms toks init = .ok (c', rest)) : c' = init ∧ rest = rest0 := by
+  cases f with
+  | zero => cases h
+  | succ f =>
+    rw [unionRest] at h
+    simp only [hce] at h
+    cases h
+    exact ⟨rfl, rfl⟩
+
 theorem sim_union1 {f : Nat} (ih : Sim f) : Union1St (f+1) := by
   intro ms sz fl0 c inner c' rest ho hs h
   obtain ⟨e, m, cs, rfl, hms⟩ := union_of_shaped hs
@@ -558,9 +713,8 @@ theorem sim_union1 {f : Nat} (ih : Sim f) : Union1St (f+1) := by
     obtain ⟨⟨k, anon⟩, hsd, h⟩ := bind_eq_ok h
     obtain ⟨mty, hmty, h⟩ := bind_eq_ok h
     obtain ⟨ck, hck, h⟩ := bind_eq_ok h
-    obtain ⟨⟨ck', tok2⟩, hd, h⟩ := bind_eq_ok h
-    obtain ⟨rest', hrb, h⟩ := bind_eq_ok h
-    cases h
+    obtain ⟨⟨ck', tok2⟩, hd, hur⟩ := bind_eq_ok h
+    simp only at hur
     obtain ⟨mi, hm⟩ := memTy_ok hmty
     have hk : (Init.union e m cs).children[k]? = some ck := by
       have := getChild_ok hck
@@ -570,7 +724,7 @@ theorem sim_union1 {f : Nat} (ih : Sim f) : Union1St (f+1) := by
     have hs' : shaped (.union ms sz fl0) (((Init.union e m cs).setMem k).setChild k ck') = true := by
       simp only [Init.setMem, Init.setChild, Init.withChildren, Init.children, shaped, Bool.and_eq_true]
       exact ⟨shapedMs_set ms cs k mi mty ck' hms hm hsk, by simp⟩
-    refine ⟨hs', fun hz top g fl res hres hcl => ?_⟩
+    refine ⟨(ih.unionrest ho hs' hur).1, fun hz top g fl res hres hcl => ?_⟩
     have hz' : e = none ∧ m = none := by
       simp only [newInit, Init.union.injEq] at hz
       exact ⟨hz.1, hz.2.1⟩
@@ -589,13 +743,15 @@ theorem sim_union1 {f : Nat} (ih : Sim f) : Union1St (f+1) := by
       cases hmj
       have fin : ∀ g1, initList g1 (.union ms sz fl0) top (setAtM (.union none none cs) ([] ++ [k]) ck')
             (next (.union ms sz fl0) top ([] ++ [k]).reverse) tok2 false fl = .ok res →
-          defaultMember (.union ms sz fl0) res.obj = ((Init.union none none cs).setMem k).setChild k ck' ∧
-            res.rest = rest ∧ res.fl = fl := by
+          defaultMember (.union ms sz fl0) res.obj = c' ∧ res.rest = rest ∧ res.fl = fl := by
         intro g1 hh
         have e1 : setAtM (.union none none cs) ([] ++ [k]) ck' = ((Init.union none none cs).setMem k).setChild k ck' := by
           simp only [List.nil_append]; exact setAtM_one_union none none cs k ck'
-        rw [e1] at hh
-        exact union_finish (e := none) (k := k) (cs := cs.set k ck') rfl (strip_comma_rbrace hrb) hh
+        rw [e1, next_union_member top k] at hh
+        obtain ⟨⟨k2, cs2, hform⟩, hsp⟩ := (ih.unionrest ho hs' hur).2 k (cs.set k ck') rfl
+        obtain ⟨q2, q3, q4⟩ := hsp top g1 fl res hh hcl
+        refine ⟨?_, q3, q4⟩
+        rw [q2, hform]; rfl
       rcases hcase with ⟨ha, hfm⟩ | ⟨ha, hagg, mp, hfm1, hfm⟩
       · subst ha
         rw [desigPaths_dot (p := []) (t := .union ms sz fl0) _ r rfl (by rw [findMember]; exact hfm) rfl] at hres
@@ -614,10 +770,8 @@ theorem sim_union1 {f : Nat} (ih : Sim f) : Union1St (f+1) := by
     simp only [hne, Bool.false_eq_true, ↓reduceIte, hfn] at h
     obtain ⟨mty, hmty, h⟩ := bind_eq_ok h
     obtain ⟨ck, hck, h⟩ := bind_eq_ok h
-    obtain ⟨⟨ck', tok2⟩, hinit, h⟩ := bind_eq_ok h
-    obtain ⟨rest', hrb, h⟩ := bind_eq_ok h
-    cases h
-    simp only at hrb
+    obtain ⟨⟨ck', tok2⟩, hinit, hur⟩ := bind_eq_ok h
+    simp only at hur
     obtain ⟨mi, hm⟩ := memTy_ok hmty
     have hk : (Init.union e m cs).children[k0]? = some ck := by
       have := getChild_ok hck
@@ -627,7 +781,7 @@ theorem sim_union1 {f : Nat} (ih : Sim f) : Union1St (f+1) := by
     have hs' : shaped (.union ms sz fl0) (((Init.union e m cs).setMem k0).setChild k0 ck') = true := by
       simp only [Init.setMem, Init.setChild, Init.withChildren, Init.children, shaped, Bool.and_eq_true]
       exact ⟨shapedMs_set ms cs k0 mi mty ck' hms hm hsk, by simp⟩
-    refine ⟨hs', fun hz top g fl res hres hcl => ?_⟩
+    refine ⟨(ih.unionrest ho hs' hur).1, fun hz top g fl res hres hcl => ?_⟩
     have hz' : e = none ∧ m = none := by
       simp only [newInit, Init.union.injEq] at hz
       exact ⟨hz.1, hz.2.1⟩
@@ -645,9 +799,8 @@ theorem sim_union1 {f : Nat} (ih : Sim f) : Union1St (f+1) := by
         cases hres
         obtain ⟨e1, e2⟩ := init2_nothing (hAk false).shapedc (hAk false).ok (consumeEnd_some_isEnd hce) hinit
         subst e1 e2
-        have hrest := strip_comma_rbrace hrb
-        rw [hce] at hrest
-        cases hrest
+        obtain ⟨q1, q2⟩ := unionRest_end hce hur
+        subst q1 q2
         simp only [Init.children] at hk
         refine ⟨?_, rfl, rfl⟩
         simp [defaultMember, hnn, Init.setMem, Init.setChild, Init.withChildren, Init.children, set_same hk]
@@ -667,7 +820,10 @@ theorem sim_union1 {f : Nat} (ih : Sim f) : Union1St (f+1) := by
           simp only [After] at hh
           have e1 : setAtM (.union none none cs) ([] ++ [k0]) ck' = ((Init.union none none cs).setMem k0).setChild k0 ck' := by
             simp only [List.nil_append]; exact setAtM_one_union none none cs k0 ck'
-          rw [e1] at hh
-          exact union_finish (e := none) (k := k0) (cs := cs.set k0 ck') rfl (strip_comma_rbrace hrb) hh
+          rw [e1, next_union_member top k0] at hh
+          obtain ⟨⟨k2, cs2, hform⟩, hsp⟩ := (ih.unionrest ho hs' hur).2 k0 (cs.set k0 ck') rfl
+          obtain ⟨q2, q3, q4⟩ := hsp top g1 fl res hh hcl
+          refine ⟨?_, q3, q4⟩
+          rw [q2, hform]; rfl
 
 end ChibiVerif.InitSpec
